@@ -194,8 +194,8 @@ PROPS = {
               dict(harness='k_json_scalar_traces', klass='complete', schema=['u8', 'f64', 'f64'], family=None, target='Serialize for Marker/Na/Remove/Coord/Symbol/Uri/Ref/XStr', one_spelling=True),
               dict(harness='k_json_number_exact', klass='complete', schema=['f64'], family='json-number', target='<Number as Serialize>::serialize'),
               dict(harness='k_json_number_unit_trace', klass='complete', schema=['f64'], family='json-number', target='<Number as Serialize>::serialize (with unit)', one_spelling=True)],
-        witness=['enum:hayson-roundtrip', 'enum:hayson-reference', 'enum:random-values'],
-        enums_thorough=['enum:random-values 40000'],
+        witness=['enum:hayson-roundtrip', 'enum:hayson-reference', 'enum:random-values', 'enum:random-hayson-spellings'],
+        enums_thorough=['enum:random-values 40000', 'enum:random-hayson-spellings 40000'],
         design_ref='DESIGN.md section 4, C05',
         level_text=('Proof (Verus, unbounded) of the writer side for every kind: jv_value is the Hayson table written from the specification as a '
                     'recursive function from values to JSON trees (null/bool/string as plain JSON; {"_kind":"marker"|"na"|"remove"}; ref with val and '
